@@ -41,6 +41,9 @@ type propCheck struct {
 	Assumptions []string
 	Stubs       []string
 	Technique   string
+	// OutsideDyn lists things found outside the claim on this run (appended
+	// to outside_bound in the evidence and printed as NOTE lines).
+	OutsideDyn func() []string
 }
 
 var registry = map[string]*propCheck{}
@@ -103,6 +106,42 @@ type nativeOutcome struct {
 // runNative runs harness cases of one package directory against the real
 // build (go test with overlay).
 func runNative(dir string, harnessNames []string, cases []nativeCase, extraOverlay map[string]string, thorough bool) ([]nativeOutcome, error) {
+	outs, err := runNativeBatch(dir, harnessNames, cases, extraOverlay, thorough)
+	if err == nil || len(cases) == 0 {
+		return outs, err
+	}
+	if !strings.Contains(err.Error(), "panic:") && !strings.Contains(err.Error(), "fatal error:") {
+		return nil, err
+	}
+	// the test process died (a panic in a goroutine the harness or the code
+	// under test started cannot be recovered by the runner): run the cases
+	// one by one and attribute the crash to the case that causes it
+	outs = nil
+	for _, c := range cases {
+		o, err1 := runNativeBatch(dir, harnessNames, []nativeCase{c}, extraOverlay, thorough)
+		if err1 == nil && len(o) == 1 {
+			outs = append(outs, o[0])
+			continue
+		}
+		msg := "process crashed"
+		if err1 != nil {
+			for _, l := range strings.Split(err1.Error(), "\n") {
+				l = strings.TrimSpace(l)
+				if strings.HasPrefix(l, "panic:") || strings.HasPrefix(l, "fatal error:") {
+					msg = l
+					break
+				}
+			}
+			if msg == "process crashed" {
+				return nil, err1
+			}
+		}
+		outs = append(outs, nativeOutcome{Harness: c.Harness, Status: "panic", Msg: msg + " (the test process died: raised outside the harness goroutine)"})
+	}
+	return outs, nil
+}
+
+func runNativeBatch(dir string, harnessNames []string, cases []nativeCase, extraOverlay map[string]string, thorough bool) ([]nativeOutcome, error) {
 	tmp, err := os.MkdirTemp("", "gosym-replay-")
 	if err != nil {
 		return nil, err
@@ -204,7 +243,7 @@ type evidence struct {
 
 func cmdCheck(args []string) int {
 	fs := flag.NewFlagSet("check", flag.ExitOnError)
-	tierF := fs.String("tier", "quick", "quick|thorough")
+	tierF := fs.String("tier", "", "quick|thorough (default: $VERIF_TIER, else quick)")
 	workers := fs.Int("workers", runtime.NumCPU(), "workers")
 	only := fs.String("only", "", "run only harnesses whose name contains this")
 	noNative := fs.Bool("nonative", false, "skip native validation (debug)")
@@ -215,8 +254,17 @@ func cmdCheck(args []string) int {
 	id := args[0]
 	fs.Parse(args[1:])
 	tier := *tierF
-	if t := os.Getenv("VERIF_TIER"); t == "quick" || t == "thorough" {
-		tier = t
+	if tier == "" {
+		// the tier named on the command line wins; the environment only
+		// supplies the default
+		tier = "quick"
+		if t := os.Getenv("VERIF_TIER"); t == "quick" || t == "thorough" {
+			tier = t
+		}
+	}
+	if tier != "quick" && tier != "thorough" {
+		fmt.Fprintf(os.Stderr, "unknown tier %q\n", tier)
+		return 2
 	}
 	seed := 0
 	if s := os.Getenv("VERIF_SEED"); s != "" {
@@ -592,7 +640,14 @@ func cmdCheck(args []string) int {
 	if pc.Bounds != nil {
 		ev.Extra["bounds"] = pc.Bounds(thorough)
 	}
-	ev.Extra["outside_bound"] = pc.Outside
+	outside := append([]string(nil), pc.Outside...)
+	if pc.OutsideDyn != nil {
+		for _, o := range pc.OutsideDyn() {
+			fmt.Printf("NOTE property=%s outside the claim: %s\n", id, o)
+			outside = append(outside, o)
+		}
+	}
+	ev.Extra["outside_bound"] = outside
 	ev.Extra["queries"] = map[string]int{"sat": solverStats.Sat, "unsat": solverStats.Unsat, "unknown": solverStats.Unknown}
 	ev.Extra["solver_time_s"] = round2(solverStats.Time.Seconds())
 	ev.Extra["solver"] = "z3 4.8.12 (/usr/bin/z3 -in), incremental, one process per worker"
